@@ -125,6 +125,9 @@ ROUND7_FIX = {
  "C17n": "no archive of C17 described a source beyond 4 GiB -> a 3 MiB archive of three stored chunks describing 4 100 MiB + 12 345 bytes (a chunk ends exactly at offset 2^32), local and HTTP, comparing sink",
 }
 ROUND8_FIX = {
+ "C04p": "the CLI legs of C04 always passed --buffered-chunks 2 -> rotated over 1 / 2-3 / 8-16",
+ "C15o": "every server case carried --http-timeout -> a chunk-data response that delivers everything, promises one more byte and stays open for 12 s, with no receive timeout on the command line",
+ "C17p": "C17's clone_cmd slice wrote to new files or in place -> also --force-create over an existing longer file, local and HTTP, without --verify-output",
  "C01o": "C01 left in-place layouts to C03 -> the L0 pairs (<= 4 chunks of sizes 1-3, real planner and executor) are a leg of C01 too, judged by the final bytes",
  "C05o": "C05's crash enumeration re-ran over the remains of ITS OWN first run only -> the in-place run over every prior layout of <= 4 chunks (whatever an interrupted run of this or another image left) is a leg of C05",
  "C05p": "(same)",
